@@ -354,7 +354,9 @@ func c16JudgeAmt(c *mon.Ctx, in *c16Amt) {
 	}
 	if !bytes.Equal(gotScript, c16Script) {
 		ok = false
-		c16Viol(c, "C16:script-changed:"+w, func() string { return fmt.Sprintf("%s: script %x came back as %x (json %s)", w, c16Script, gotScript, js) })
+		c16Viol(c, "C16:script-changed:"+w, func() string {
+			return fmt.Sprintf("%s: script %x came back as %x (json %s)", w, c16Script, gotScript, js)
+		})
 	}
 	if !idOK {
 		ok = false
@@ -365,7 +367,9 @@ func c16JudgeAmt(c *mon.Ctx, in *c16Amt) {
 	} else {
 		c.Count("amount:" + w + ":changed")
 	}
-	c.Sample("amount:"+w, 1, func() any { return map[string]any{"dialect": w, "satoshis": v, "json": string(js), "satoshis_back": gotSats} })
+	c.Sample("amount:"+w, 1, func() any {
+		return map[string]any{"dialect": w, "satoshis": v, "json": string(js), "satoshis_back": gotSats}
+	})
 }
 
 // ------------------------------------------------------------- transactions
@@ -574,7 +578,9 @@ func c16JudgeTx(c *mon.Ctx, in *c16Tx) {
 				continue
 			}
 			if err != nil || len(out) != len(us) {
-				c16Viol(c, "C16:unmarshal-error:"+w, func() string { return fmt.Sprintf("json.Unmarshal(%s) of %s: %v (%d of %d elements)", w, js, err, len(out), len(us)) })
+				c16Viol(c, "C16:unmarshal-error:"+w, func() string {
+					return fmt.Sprintf("json.Unmarshal(%s) of %s: %v (%d of %d elements)", w, js, err, len(out), len(us))
+				})
 				continue
 			}
 			for k := range us {
@@ -608,7 +614,9 @@ func c16JudgeBuilt(c *mon.Ctx, in *c16Built) {
 	nin := 2 + r.Intn(3)
 	for i := 0; i < nin; i++ {
 		var err error
-		if !c.Try("bt.(*Tx).From", func() { err = tx.From(hex.EncodeToString(r.Bytes(32)), uint32(r.Intn(5)), lock.String(), 1000+gen.Sats(r)%1_000_000) }) || err != nil {
+		if !c.Try("bt.(*Tx).From", func() {
+			err = tx.From(hex.EncodeToString(r.Bytes(32)), uint32(r.Intn(5)), lock.String(), 1000+gen.Sats(r)%1_000_000)
+		}) || err != nil {
 			c.Fault(fmt.Sprintf("could not build the funded tx: %v", err))
 			return
 		}
